@@ -449,6 +449,8 @@ def main(argv=None):
         with ctxm.Pool(nproc) as pool:
             for r in pool.imap_unordered(run_shard, tasks, chunksize=1):
                 results.append(r)
+            pool.close()   # let the workers exit by themselves (atexit handlers run: tools/covsurvey.sh needs that)
+            pool.join()
     results.sort(key=lambda r: (r["part"], r["shard"]))
     for r in results:
         if r["error"]:
